@@ -353,6 +353,26 @@ def parse_listing(lines):
 
 
 def oracle(hv, cases, workdir):
+    """sharded front: see _oracle_one"""
+    import concurrent.futures
+    CH = 1500
+    if len(cases) <= CH:
+        return _oracle_one(hv, cases, workdir)
+    out = [None] * len(cases)
+    parts = [(k, cases[k:k + CH]) for k in range(0, len(cases), CH)]
+
+    def one(p):
+        k, part = p
+        sd = os.path.join(workdir, 'oshard%d' % k)
+        os.makedirs(sd, exist_ok=True)
+        return k, _oracle_one(hv, part, sd)
+    with concurrent.futures.ThreadPoolExecutor(max_workers=vlib.NCPU) as ex:
+        for k, r in ex.map(one, parts):
+            out[k:k + len(r)] = r
+    return out
+
+
+def _oracle_one(hv, cases, workdir):
     """cases: list of dict(prog=[oracle lines], file=bytes, listing=[LIST lines] or None, use_syms=bool)
     returns list of dict(image, symtab, listing) with values 'ok'/'FAIL'/'skip' (None when the file is malformed)"""
     path = os.path.join(workdir, 'oracle_cases.txt')
@@ -479,12 +499,29 @@ def pipeline(ck, cases, need_model=True):
         return None
     d = vlib.scratch()
     srcs = [c['src'] for c in cases]
-    real = run_real(har, srcs, d)
+    # shard: the big batches of the thorough tier run in parallel, each shard in its own directory
+    import concurrent.futures
+    CH = 1500
+    shards = [(k, srcs[k:k + CH]) for k in range(0, len(srcs), CH)]
+
+    def one(sh):
+        k, part = sh
+        sd = os.path.join(d, 'shard%d' % k)
+        os.makedirs(sd, exist_ok=True)
+        r = run_real(har, part, sd)
+        if need_model:
+            m, rc, err = run_model(hv, part, sd, timeout=3600)
+        else:
+            m, rc, err = [None] * len(part), 0, ''
+        return k, r, m, rc, err
+    real = [None] * len(cases)
     model = [None] * len(cases)
-    if need_model:
-        model, rc, err = run_model(hv, srcs, d)
-        if rc != 0:
-            ck.broken.append('extracted assembler model failed rc=%d %s' % (rc, err))
+    with concurrent.futures.ThreadPoolExecutor(max_workers=min(vlib.NCPU, max(1, len(shards)))) as ex:
+        for k, r, m, rc, err in ex.map(one, shards):
+            real[k:k + len(r)] = r
+            model[k:k + len(m)] = m
+            if rc != 0:
+                ck.broken.append('extracted assembler model failed rc=%d %s' % (rc, err))
     for c, r, m in zip(cases, real, model):
         c['real'] = r
         c['model'] = m
